@@ -780,6 +780,19 @@ pub fn illsorted_variants(text: &str) -> Vec<String> {
                 s.push('\n');
                 out.push(s);
             }
+            // sorts the file does not declare itself (a file over one sort has no other id to offer): extra
+            // sort lines with ids of their own are put in front
+            if t[1] != "sort" {
+                for (extra_id, header) in [("9001", "9001 sort bitvec 1\n"), ("9002", "9002 sort bitvec 2\n"), ("9003", "9003 sort bitvec 8\n"), ("9004", "9001 sort bitvec 1\n9002 sort bitvec 2\n9004 sort array 9001 9002\n")] {
+                    let mut t2: Vec<String> = t.iter().map(|x| x.to_string()).collect();
+                    t2[p] = extra_id.to_string();
+                    let mut ls: Vec<String> = lines.iter().map(|x| x.to_string()).collect();
+                    ls[li] = t2.join(" ");
+                    let mut s = format!("{header}{}", ls.join("\n"));
+                    s.push('\n');
+                    out.push(s);
+                }
+            }
         }
     }
     out
